@@ -67,6 +67,7 @@ type Container struct {
 	Mappings []Mapping
 	UpProc   int             // daemon incarnation in which its ports were (re)opened
 	DelOK    bool
+	DelOKProc int // daemon incarnation that answered its first successful DEL
 	LateDels  int  // DELs sent after it stopped being the pod's current sandbox
 	Abandoned bool // kubelet will never send DEL (C17)
 	DelTries int
@@ -210,6 +211,7 @@ type World struct {
 	syncOK      int
 
 	killDaemonSoon bool
+	initFaults, initFaultsAtStart int // faults injected into daemon start attempts
 	rawBusy        map[string]*core.Task // hostile raw requests in flight (C18)
 	badConfig      bool                  // a hostile galaxy.json is installed (C18)
 	halfWritten    map[string]bool // files created (truncated) by the daemon whose write has not happened yet
@@ -392,6 +394,7 @@ func (w *World) StartProcess() {
 	w.ready, w.down = false, false
 	w.starts++
 	w.startErr = ""
+	w.initFaultsAtStart = w.initFaults
 	inst := w.inst
 	p := startParams{JSONConfigPath: jsonConfigPath, ConfDir: confDir, CNIPaths: []string{galaxyCNIPath}, SetupIPtables: w.prof.SetupIPT, RunGC: w.prof.RealGCRun}
 	w.preStart = w.Kern.Lines("nat")
@@ -493,6 +496,9 @@ func (w *World) Handle(t *core.Task, r *core.Req) core.Resp {
 // noteFault records that an injected, non-scripted fault hit the request (or background task) t runs.
 func (w *World) noteFault(t *core.Task) {
 	w.unscripted++
+	if t != nil && t.Tag == "init" {
+		w.initFaults++
+	}
 	if rq := reqOf(t); rq != nil {
 		rq.extFault = true
 		rq.fault = true
@@ -579,8 +585,9 @@ func (w *World) handleReport(t *core.Task, r *core.Req) core.Resp {
 			// a hostile configuration text was refused with an error: the expected outcome; back to the good one
 			w.S.Stat("probe.hostile-config-refused")
 			w.restoreConfig()
-		} else if w.unscripted == 0 && w.iptRate == 0 && w.apiRate == 0 && w.fsRate == 0 {
-			// nothing was injected: the daemon cannot start on this node
+		} else if w.initFaults == w.initFaultsAtStart {
+			// no fault was injected into this start attempt
+			// the daemon cannot start on this node
 			if w.armed("C18") {
 				// no hostile configuration text is installed and nothing was injected, yet the daemon refuses to start:
 				// with the objects now in the API server it can never come up again (crash loop)
